@@ -14,6 +14,10 @@ Open Scope Z_scope.
 (* the read deadline is re-armed in exactly three places, all triggered by the peer (a frame was read, a ping/pong
    arrived, a long frame is still arriving); it is armed before the reader blocks; a ping is answered with a pong *)
 Theorem c17_source_facts :
+  (* a pong is written with a deadline of one second from now (never unbounded, never already past), and no write deadline
+     is ever set on the connection itself *)
+  JRGen.Extracted.write_control_calls = ["conn.WriteControl(websocket.PongMessage, []byte(appData), time.Now().Add(time.Second))"]%string /\
+  JRGen.Extracted.write_deadline_calls = [] /\
   Extracted.callsites_resetReadDeadline = ["nextMessage"; "handleWsConn"; "autoResetReader(value)"]%string /\
   Extracted.nextMessage_resets_before_read = true /\ Extracted.ping_handler_answers_pong = true /\
   Extracted.default_client_ping_timeout = (5000000000, 30000000000) /\ Extracted.default_server_ping = 5000000000 /\
